@@ -53,6 +53,8 @@ def gen_result(rng, kinds_pool, n_ext):
         spec["emis"] = [[k, float(np.round(rng.uniform(0, 50), 3))] for k in ks]
     spec["emis_defaultdict"] = bool(rng.random() < 0.5)
     spec["detail"] = None if rng.random() < 0.3 else [int(x) for x in rng.integers(0, 1000, size=int(rng.integers(1, 4)))]
+    # hand-made tables come in several shapes: the usual columns, other columns, or row labels only
+    spec["detail_shape"] = str(rng.choice(["full", "other-columns", "no-columns"], p=[0.6, 0.2, 0.2]))
     nk = int(rng.choice([0, 1, 2, 3]))
     ks = [kinds_pool[i] for i in rng.choice(len(kinds_pool), size=nk, replace=False)]
     spec["fuel"] = [[k[0], k[1], k[2], float(np.round(rng.uniform(0, 3000), 2))] for k in ks]
@@ -70,8 +72,14 @@ def build_result(spec, names):
             emis[EmissionType(k)] = v
     detail = None
     if spec["detail"] is not None:
-        detail = pd.DataFrame({"row_id": spec["detail"], "x": [float(i) for i in spec["detail"]]},
-                              index=[f"c{i}" for i in spec["detail"]])
+        idx = [f"c{i}" for i in spec["detail"]]
+        shape = spec.get("detail_shape", "full")
+        if shape == "no-columns":
+            detail = pd.DataFrame(index=idx)
+        elif shape == "other-columns":
+            detail = pd.DataFrame({"y": [float(i) / 2 for i in spec["detail"]]}, index=idx)
+        else:
+            detail = pd.DataFrame({"row_id": spec["detail"], "x": [float(i) for i in spec["detail"]]}, index=idx)
     return FEEMSResult(duration_s=spec["duration"], load_ratio_genset=spec["load"], total_emission_kg=emis,
                        detail_result=detail, multi_fuel_consumption_total_kg=FuelConsumption(fuels=fuels),
                        co2_emission_total_kg=GHGEmissions(*spec["co2"]), **kw)
@@ -90,7 +98,7 @@ def observe(r: FEEMSResult, names):
     emis = None
     if r.total_emission_kg is not None:
         emis = [[k.value, f1(v)] for k, v in r.total_emission_kg.items()]
-    detail = None if r.detail_result is None else [int(x) for x in r.detail_result["row_id"].values]
+    detail = None if r.detail_result is None else [int(str(x)[1:]) for x in r.detail_result.index]        # rows by their labels
     g = r.co2_emission_total_kg
     return {"duration": None if r.duration_s is None else f1(r.duration_s),
             "ext": [f1(getattr(r, n)) for n in names],
